@@ -259,7 +259,7 @@ func (c *MapCodec) readTagAndLength(data []byte, offset int) (offset2, fieldEnd,
 		}
 		offset += n
 		fieldEnd = int(fieldLen) + offset
-		if fieldEnd > len(data) {
+		if fieldLen > uint64(len(data)-offset) {
 			return 0, 0, 0, wt, fmt.Errorf("length %d of field %d of %s exceeds data length %d", fieldLen, index, c.rtype.Name(), len(data)-offset)
 		}
 	}
